@@ -39,7 +39,8 @@ MODULES = {
     'C02': ['contracts.mps_layers'],
     'C06': ['contracts.wrappers'],
     'C18': ['contracts.wrappers'],
-    'C07': ['contracts.wrappers'],
+    'C09': ['contracts.c09', 'contracts.pit_layers'],
+    'C07': ['contracts.c07', 'contracts.wrappers'],
 }
 
 EXTRACTION_DROPS = ['docstrings', 'type annotations', 'typing.cast (identity)', 'with torch.no_grad() (body kept)',
